@@ -13,7 +13,33 @@ import subprocess
 import tempfile
 import time
 
+import threading
+
 import z3
+
+
+class Watchdog:
+    """z3's own timeout is not always honoured inside nlsat: interrupt the context from a timer thread as a backstop"""
+
+    def __init__(self, seconds):
+        self.t = threading.Timer(seconds, self._fire)
+        self.fired = False
+
+    def _fire(self):
+        self.fired = True
+        try:
+            z3.main_ctx().interrupt()
+        except Exception:  # noqa: BLE001
+            pass
+
+    def __enter__(self):
+        self.t.daemon = True
+        self.t.start()
+        return self
+
+    def __exit__(self, *a):
+        self.t.cancel()
+        return False
 
 
 class PathAbort(Exception):
@@ -80,7 +106,11 @@ class Engine:
             self.solver.add(e if b else z3.Not(e))
         for e in extra:
             self.solver.add(e)
-        r = self.solver.check()
+        with Watchdog(self.timeout_ms / 1000.0 + 5):
+            try:
+                r = self.solver.check()
+            except z3.Z3Exception:
+                r = z3.unknown
         m = self.solver.model() if (model and r == z3.sat) else None
         self.solver.pop()
         self.tq += time.time() - t
@@ -151,7 +181,11 @@ class Engine:
         ext = None
         if race and portfolio:
             ext = ExternalRace(s.to_smt2(), self.obligation_timeout_ms // 1000)
-        r = s.check()
+        with Watchdog(self.timeout_ms / 1000.0 + 5):
+            try:
+                r = s.check()
+            except z3.Z3Exception:
+                r = z3.unknown
         if r != z3.unknown:
             if ext:
                 ext.kill()
